@@ -71,7 +71,7 @@ const bubbleDeadlockMsg = "deadlock: main bubble goroutine has exited but blocke
 func RunBubble(t *testing.T, s *Scheduler, sys func()) (out RunOutcome) {
 	defer func() {
 		if r := recover(); r != nil {
-			if msg, ok := r.(string); ok && strings.HasPrefix(msg, "deadlock:") {
+			if msg := fmt.Sprint(r); strings.HasPrefix(msg, "deadlock:") {
 				out.Leak = true
 				return
 			}
